@@ -105,11 +105,11 @@ type Sim struct {
 	pctN      int
 	pctLow    int
 
-	trace    [maxTrace]TraceEv
-	ntrace   int
-	Probes   [maxProbes]int64
-	knobs    [maxKnobs]knob
-	nknobs   int
+	trace  [maxTrace]TraceEv
+	ntrace int
+	Probes [maxProbes]int64
+	knobs  [maxKnobs]knob
+	nknobs int
 	// happens-before plumbing for the race detector: every task releases on
 	// its own word when it parks or ends and main acquires all of them when
 	// it regains control (task -> main, never task -> task); main releases on
